@@ -504,6 +504,49 @@ def emit_dump_files(sigs, first_k=0):
             'dump.s': DUMP_ASM + '\n'.join(stubs) + '\n  .section .note.GNU-stack,"",@progbits\n'}
 
 
+RET_MAIN = r'''
+#include <stdio.h>
+struct RetDump { unsigned long k, rax, rdx, xmm0, xmm1, st0[2]; } rd;
+unsigned char retbuf[512];
+void *memcpy(void *, const void *, unsigned long);
+void *memset(void *, int, unsigned long);
+static void ret_print(void) {
+  printf("R %lu %lx %lx %lx %lx %lx %lx %d ", rd.k, rd.rax, rd.rdx, rd.xmm0, rd.xmm1, rd.st0[0], rd.st0[1] & 0xffff, rd.rax == (unsigned long)retbuf);
+  for (int i = 0; i < 512; i++) printf("%02x", retbuf[i]);
+  printf("\n");
+}
+'''
+
+
+def emit_ret_files(sigs, st0_flags, first_k=0):
+    """ret_callee.c: one function per signature that only builds and returns the value; retdump.s: stubs that call it with a
+    hidden-pointer candidate in rdi and record rax, rdx, xmm0, xmm1 (and st0 when `st0_flags[i]`); main.c prints"""
+    defs, _ = c_typedefs(sigs)
+    callee = list(defs) + [COMMON]
+    stubs = ['  .text']
+    main = [RET_MAIN]
+    calls = []
+    for i, s in enumerate(sigs):
+        k = first_k + i
+        _, rets, _ = plan(s, k)
+        callee.append(f'{s.ret.cdecl("").strip()} r{k}(void) {{')
+        callee.append(f'  {s.ret.cdecl("r_")};')
+        callee.append('  memset(&r_, 0, sizeof(r_));')
+        for path, lt, w, rid in rets:
+            callee.append('  ' + c_set(f'r_{path}', lt, w))
+        callee.append('  return r_;\n}')
+        stubs.append(f'  .globl callr{k}\ncallr{k}:\n  sub $8, %rsp\n  movq ${k}, rd(%rip)\n  lea retbuf(%rip), %rdi\n  call r{k}\n'
+                     f'  mov %rax, rd+8(%rip)\n  mov %rdx, rd+16(%rip)\n  movq %xmm0, rd+24(%rip)\n  movq %xmm1, rd+32(%rip)\n'
+                     + ('  fstpt rd+40(%rip)\n' if st0_flags[i] else '') + '  add $8, %rsp\n  ret\n')
+        main.append(f'void callr{k}(void);')
+        calls.append(f'  memset(retbuf, 0, sizeof retbuf); memset(&rd, 0, sizeof rd); callr{k}(); ret_print(); fflush(stdout);')
+    main.append('int main(void) {')
+    main += calls
+    main.append('  printf("END\\n"); return 0; }')
+    stubs.append('  .section .note.GNU-stack,"",@progbits')
+    return {'ret_callee.c': '\n'.join(callee) + '\n', 'retdump.s': '\n'.join(stubs) + '\n', 'ret_main.c': '\n'.join(main) + '\n'}
+
+
 def emit_tie_files(sigs, first_k=0):
     """sources for the asm-text tie: tie_caller.c (one function per signature that only makes the call, arguments are
     global variables) and tie_callee.c (takes the address of every parameter, returns a global)"""
